@@ -134,6 +134,8 @@ def regEvs (tr : Trace) : List (Int × Svc) :=
   tr.filterMap fun e => match e.e with | .reg s => some (e.t, s) | .upd s => some (e.t, s) | .unreg s => some (e.t, s) | _ => none
 
 def upAt (tr : Trace) (h : Nat) (t : Int) : Bool := (ups tr).any fun u => u.2 == h && u.1 ≤ t
+/-- `h` came up strictly before `t` (a datagram sent in the very instant a host comes up need not reach it) -/
+def upBefore (tr : Trace) (h : Nat) (t : Int) : Bool := (ups tr).any fun u => u.2 == h && u.1 < t
 def closedBy (tr : Trace) (h : Nat) (t : Int) : Bool := (closes tr).any fun c => c.2 == h && c.1 ≤ t
 def neverClosed (tr : Trace) (h : Nat) : Bool := (closes tr).all fun c => !(c.2 == h)
 
@@ -248,7 +250,7 @@ def hostsOf (tr : Trace) : List Nat := (ups tr).map (·.2)
 def obligations (cfg : Cfg) (tr : Trace) (endT : Int) : List Obl :=
   (sends tr).flatMap fun s =>
     (hostsOf tr).filterMap fun h =>
-      if s.t + cfg.maxDelay ≤ endT && dstOK s.dst h && upAt tr h s.t && !closedBy tr h (s.t + cfg.maxDelay)
+      if s.t + cfg.maxDelay ≤ endT && dstOK s.dst h && upBefore tr h s.t && !closedBy tr h (s.t + cfg.maxDelay)
       then some ⟨s.d, s.t, h, s.items⟩ else none
 
 def delivered (cfg : Cfg) (tr : Trace) (o : Obl) : Bool :=
@@ -256,7 +258,8 @@ def delivered (cfg : Cfg) (tr : Trace) (o : Obl) : Bool :=
 
 def missing (cfg : Cfg) (tr : Trace) (endT : Int) : List Obl := (obligations cfg tr endT).filter fun o => !delivered cfg tr o
 
-/-- K7b: every datagram reaches every host that is up within `maxDelay`, except one chosen delivery -/
+/-- K7b: every datagram reaches every host that came up before it was sent (and is not closed meanwhile) within `maxDelay`,
+except one chosen delivery -/
 def K7b (cfg : Cfg) (tr : Trace) (endT : Int) : Bool :=
   (missing cfg tr endT).all fun a => (missing cfg tr endT).all fun b => a == b
 
